@@ -1133,6 +1133,43 @@ def check_key_agreement(fx, rep, cg):
     rep.floor("R07.4", n_fam, 2, "keyed stores (storage, memory) with a writer and a reader on the execution path")
 
 
+def check_history_only_writes(fx, rep, rule="R07.4"):
+    """`Each path's storage history lists exactly the writes performed on that path`: an element enters a key's history only as a
+    value handed to the store operation. A history that is started with a made-up element (a placeholder inserted by the READ of
+    a never-written key) lists something that is not a write."""
+    from .c06 import history_fields
+
+    n = 0
+    for adt in ("vm::state::storage::Storage",):
+        hf = history_fields(fx, adt)
+        for b in fx.fn_bodies():
+            if b.get("impl_self") != adt or not b.get("hir"):
+                continue
+            root = b["hir"]["value"]
+            params = {p_["local"] for p_ in b["hir"]["params"] if p_.get("p") == "Bind"}
+            for c, ps in F.calls(root):
+                if c.get("k") != "MethodCall" or c["method"] not in ("or_insert", "or_insert_with", "push", "insert"):
+                    continue
+                rt = (c.get("recv_ty") or "")
+                if not ("Entry<" in rt or "Vec<" in rt or "HashMap<" in rt) or "SymbolicValue" not in rt:
+                    continue
+                n += 1
+                made_up = []
+                for a in c["args"]:
+                    for x, xps in F.walk(a):
+                        if x.get("k") == "Struct" and x.get("adt") == "vm::value::SymbolicValueData":
+                            made_up.append(x.get("variant"))
+                rep.oblige(
+                    not made_up,
+                    rule,
+                    f"history-only-writes:{F.strip_generics(b['def'])}:{c['method']}",
+                    F.loc(c["span"]),
+                    f"`{b['def']}` puts a made-up `{made_up[0] if made_up else '?'}` value into a key's history (`{c['method']}`): the history of a slot that is read before it is written then lists an entry that is not a write of the path",
+                    sample={"rule": rule, "fn": b["def"], "call": c["method"], "made_up": made_up},
+                )
+    rep.floor(rule, n, 2, "insertions into the per-key storage history")
+
+
 def check(fx, rep, tier):
     cg = F.CallGraph(fx)
     dm = DisasmModel(fx)
@@ -1145,6 +1182,7 @@ def check(fx, rep, tier):
     check_r073(fx, rep, cg, dm)
     check_r074(fx, rep, cg)
     check_key_agreement(fx, rep, cg)
+    check_history_only_writes(fx, rep)
     check_cell_key_width(fx, rep)
     check_byte_order(fx, rep, cg)
     check_pc_value(fx, rep)
